@@ -400,6 +400,12 @@ func getHWPos(segments []*segment, hw int64) (int, int64, error) {
 	if err != nil {
 		return 0, 0, err
 	}
+	// findEntry returns the first entry at or after the HW. If the HW itself
+	// is no longer in the log, e.g. because retention removed its segment,
+	// this entry is past the HW, so committed data ends where it starts.
+	if hwEntry.Offset > hw {
+		return hwIdx, hwEntry.Position, nil
+	}
 	return hwIdx, hwEntry.Position + int64(hwEntry.Size), nil
 }
 
